@@ -17,6 +17,7 @@ package hub
 import (
 	"fmt"
 	"strings"
+	"sync"
 	"time"
 
 	"github.com/streamingfast/bstream"
@@ -38,6 +39,7 @@ type ForkableHub struct {
 
 	optionalHandler   bstream.Handler
 	subscribers       []*Subscription
+	subscribersLock   sync.Mutex // subscribe() runs under the forkable's shared read lock: concurrent subscriptions must not race on the slice
 	sourceChannelSize int
 
 	ready bool
@@ -76,7 +78,10 @@ func NewForkableHub(liveSourceFactory bstream.SourceFactory, oneBlocksSourceFact
 	}
 
 	hub.OnTerminating(func(err error) {
-		for _, sub := range hub.subscribers {
+		hub.subscribersLock.Lock()
+		subscribers := hub.subscribers
+		hub.subscribersLock.Unlock()
+		for _, sub := range subscribers {
 			sub.Shutdown(err)
 		}
 	})
@@ -150,12 +155,16 @@ func (h *ForkableHub) subscribe(handler bstream.Handler, initialBlocks []*bstrea
 		_ = sub.push(ppblk)
 	}
 	verifPoint("subscribe:before-append")
+	h.subscribersLock.Lock()
 	h.subscribers = append(h.subscribers, sub)
+	h.subscribersLock.Unlock()
 	return sub
 }
 
 // unsubscribe must be called while hub is locked
 func (h *ForkableHub) unsubscribe(removeSub *Subscription) {
+	h.subscribersLock.Lock()
+	defer h.subscribersLock.Unlock()
 	var newSubscriber []*Subscription
 	for _, sub := range h.subscribers {
 		if sub != removeSub {
@@ -344,7 +353,9 @@ func (h *ForkableHub) processBlock(blk *pbbstream.Block, obj interface{}) error 
 	zlog.Debug("process_block", zap.Stringer("blk", blk.AsRef()), zap.Any("obj", obj.(*forkable.ForkableObject).Step()))
 	preprocBlock := &bstream.PreprocessedBlock{Block: blk, Obj: obj}
 
+	h.subscribersLock.Lock()
 	subscribers := h.subscribers // we may remove some from the original slice during the loop
+	h.subscribersLock.Unlock()
 
 	for _, sub := range subscribers {
 		err := sub.push(preprocBlock)
